@@ -287,4 +287,6 @@ def run(repo, tier):
         res.add(Finding('SPEC', fi.fullname, 'geometry of the non-iterative sample', fi.loc,
                         f'Ellipse.fit_isophote hands {geo} to the non-iterative extraction; it must be the local `geometry` (taken from the '
                         f'last fitted isophote), not the first-guess geometry of the Ellipse', {}))
+    from .common import run_generic_pack
+    run_generic_pack(repo, res, PROP, MODS)
     return res
